@@ -124,6 +124,29 @@ CHECKS = {
     design_ref="DESIGN.md section 5, C14",
     note="Trusted: as C01. The tokenizer half is testing, not proof. No axioms.",
     technique="Coq proof (canonical tokens => canonical tree, induction on stream length) + correspondence + canonical-form oracle (testing)"),
+ "C06": dict(
+    category="proof",
+    text="Theorem (Coq): for ALL prior object states - hence every history of earlier calls, completed or aborted at any point - a call "
+         "whose initial reset overwrites every field its body reads returns the same result. The premise is discharged on field lists "
+         "regenerated from /repo on every run: every self.<field> of Tokenizer/Builder/Parser vs the fields assigned at the start of "
+         "tokenize()/build(); the members of the C Tokenizer struct vs what Tokenizer_tokenize resets before Tokenizer_parse. Tied to the "
+         "code additionally by histories on one Tokenizer/CTokenizer/Parser object with a BaseException injected at the k-th token "
+         "construction or the k-th _push/_pop/_emit/_emit_text, followed by calls compared with a fresh object's and a check for "
+         "leftover frames, in crash-isolating children.",
+    design_ref="DESIGN.md section 5, C06",
+    note="Trusted: hypothesis that a method body reaches instance state only through self.<field> (Python attribute semantics); the "
+         "AST / C-text scanner; for C, memory of an abandoned call being released is a C07 matter. No axioms.",
+    technique="Coq proof (state-ownership: call = body o reset, quantified over all prior states) over generated field lists + fault-injection histories"),
+ "C19": dict(
+    category="proof",
+    text="PARTIAL. Proved (Coq): machines whose steps touch only their own instance state yield, under EVERY interleaving, the result of "
+         "their solo runs; on lists regenerated from the source: C file-scope variables are written only by module initialisation "
+         "(+ the idempotent lazy load of ParserError), the Python package has no `global` statement, every tokenizer/builder call "
+         "depends only on its own instance (C06). NOT modelled: the GIL, CPython's thread safety, the memory model: validated by "
+         "8-16 threads parsing with own objects at a 1 microsecond switch interval against sequential results, both tokenizers.",
+    design_ref="DESIGN.md section 5, C19",
+    note="Trusted: the C-text scanner for file-scope variables and their writers; the stress run is testing. No axioms.",
+    technique="Coq proof (interleaving independence by induction over schedules) over generated ownership facts + thread stress run (testing)"),
 }
 
 NOT_YET = {}
